@@ -2,6 +2,7 @@ package props
 
 import (
 	"bytes"
+	"encoding/csv"
 	stdjson "encoding/json"
 	"fmt"
 	"math/rand"
@@ -74,7 +75,7 @@ type c13Table struct {
 }
 
 func c13Cell(r *rand.Rand, delim byte, allowQuoted bool) string {
-	words := []string{"5\" disk", "12\"", "say \"hi\"", " \"", " \"x", "a \"", " \" ", "a", "b", "id", "name", "x1", "42", "3.14", "-7", "hello world", "foo.bar", "2024-01-02", "N/A", "", "", " lead", "trail ", "é", "ü", "O'Neil", "100%", "a;b", "k=v"}
+	words := []string{"<b", "<p", "<table", "<?xml", "<html", "<a", "<!-", "%PDF", "PK", "5\" disk", "12\"", "say \"hi\"", " \"", " \"x", "a \"", " \" ", "a", "b", "id", "name", "x1", "42", "3.14", "-7", "hello world", "foo.bar", "2024-01-02", "N/A", "", "", " lead", "trail ", "é", "ü", "O'Neil", "100%", "a;b", "k=v"}
 	if allowQuoted && r.Intn(6) == 0 {
 		in := []string{"x" + string(delim) + "y", "he said \"\"hi\"\"", string(delim), "a" + string(delim) + string(delim) + "b", "plain"}[r.Intn(5)]
 		return `"` + in + `"`
@@ -177,6 +178,12 @@ func c13Forward(c *fw.Ctx, t *lib.Tree, kind string, d []byte, from int, which b
 		case "hit":
 			c.Count("forward_kept_"+nm[1], 1)
 		case "exception":
+			if ok, sig := c13ExceptionJustified(why, lib.Header(d, L)); !ok {
+				c.Violate("line-format-lost", key13(d, L),
+					fmt.Sprintf("%s expected %s, reported as the higher-priority format %s whose signature the examined bytes do not carry (%s); result %s; input %s", kind, nm[0], why, sig, ch, fw.Quote(d, 120)),
+					fw.InCase{Kind: kind, In: d, Limit: L, Entry: "Detect", Aux: fmt.Sprintf("forward|%c|%d|%v", which, from, relativeOnly), InQ: fw.Quote(d, 120)})
+				break
+			}
 			c.Count("exception_higher_priority_format", 1)
 			c.SetAdd("exception_formats", why)
 		default:
@@ -210,6 +217,32 @@ func c13Forward(c *fw.Ctx, t *lib.Tree, kind string, d []byte, from int, which b
 			c.Distinct(fmt.Sprintf("fwd|%s|%s|%c", tag, rel, which))
 		}
 	}
+}
+
+// c13ExceptionJustified: a table that is reported as another text format is the
+// statement's exception only if its bytes carry that format's signature: text/csv for
+// a tab-separated table whose lines are also a rectangular comma-separated table
+// (decided with encoding/csv on the complete lines), otherwise the pinned signatures.
+func c13ExceptionJustified(format string, h []byte) (bool, string) {
+	if format == "text/csv" {
+		rd := csv.NewReader(bytes.NewReader(h))
+		rd.Comment = '#'
+		rd.LazyQuotes = true
+		rd.ReuseRecord = true
+		n, rows := -1, 0
+		for {
+			rec, err := rd.Read()
+			if err != nil {
+				break
+			}
+			if n < 0 {
+				n = len(rec)
+			}
+			rows++
+		}
+		return n >= 2 && rows >= 1, "a comma-separated reading of the same lines with at least two fields"
+	}
+	return exceptionJustified(format, h)
 }
 
 func key13(d []byte, L uint32) string { return fw.InputKey(d, L, "Detect") }
@@ -386,6 +419,9 @@ func c13Run(c *fw.Ctx, b fw.Batch) {
 			if i%4 == 0 { // long tables: a ragged line far down must still be seen
 				rows = 18 + r.Intn(45)
 			}
+			if i%16 == 1 { // very long tables of short rows (more records than any fixed record budget)
+				rows, cols = 130+r.Intn(400), 2
+			}
 			crlf := r.Intn(3) == 0
 			// simple unquoted cells, no comments, no foreign delimiter
 			var lines []string
@@ -398,6 +434,9 @@ func c13Run(c *fw.Ctx, b fw.Batch) {
 			}
 			for dmg := 0; dmg < rows; dmg++ {
 				if rows > 12 && dmg > 3 && dmg < rows-3 && dmg%5 != i%5 {
+					continue
+				}
+				if rows >= 130 && dmg > 3 && dmg < rows-3 && dmg != 127 && dmg != 128 && dmg != 129 && dmg != 255 && dmg != 256 && dmg != 257 && dmg%40 != i%40 {
 					continue
 				}
 				mod := append([]string{}, lines...)
